@@ -930,3 +930,25 @@ package gogen
 //@ loop 0 invariant idx >= 0 && ret == ite(idx == 0, name, name + strconv.Itoa(idx)) && renamed == (idx > 0)
 //@ ensures !in(p.names, result0) && !old(in(p.importNames, mkstruct(importName, result0, file))) && in(p.importNames, mkstruct(importName, result0, file))
 //@ ensures result1 == (result0 != name)
+
+//@ func (*File).forceImport
+//@ prop C09
+//@ requires p.imps != nil
+//@ assigns p.dirty, map(p.imps)
+//@ ensures in(p.imps, pkgPath) && imp(old(in(p.imps, pkgPath)), p.imps[pkgPath] == old(p.imps[pkgPath]) && p.dirty == old(p.dirty)) && imp(!old(in(p.imps, pkgPath)), p.imps[pkgPath] == nil && p.dirty)
+//@ ensures sforall(k, imp(k != pkgPath, in(p.imps, k) == old(in(p.imps, k)) && p.imps[k] == old(p.imps[k])))
+
+//@ func (*File).Name
+//@ prop C09
+//@ readonly
+//@ ensures result == p.fname
+
+// qualified references to objects (C09): objects of other packages are written as a selector on the file's shared
+// import node for that package path; objects of this package / the universe are bare identifiers
+//@ func toObjectExpr
+//@ prop C09
+//@ requires PkgWf(pkg) && v != nil
+//@ assigns pkg.file.dirty, map(pkg.file.imps)
+//@ ensures result != nil && ImpsGrow(pkg)
+//@ ensures imp(v.Pkg() != nil && v.Pkg() != pkg.Types && v.Pkg() != pkg.builtin.Types, typeis(result, *ast.SelectorExpr) && result.(*ast.SelectorExpr).Sel != nil && result.(*ast.SelectorExpr).Sel.Name == v.Name() && in(pkg.file.imps, v.Pkg().Path()) && result.(*ast.SelectorExpr).X == asI(pkg.file.imps[v.Pkg().Path()], ast.Expr))
+//@ ensures imp((v.Pkg() == nil || v.Pkg() == pkg.Types) && !typeis(v, *types.Var), typeis(result, *ast.Ident) && result.(*ast.Ident).Name == v.Name())
